@@ -39,3 +39,6 @@ func (sys *ActorSystem) VerifResourceController() *prc.ResourceController { retu
 // VerifGuardRef / VerifSubscriptionRef expose the two system actors (verification builds only).
 func (sys *ActorSystem) VerifGuardRef() ActorRef        { return sys.guard.ref }
 func (sys *ActorSystem) VerifSubscriptionRef() ActorRef { return sys.subscription }
+
+// VerifNewAbyss returns a fresh default dead-letter process, so that a harness can wrap it (verification builds only).
+func VerifNewAbyss() AbyssProcess { return newAbyss() }
